@@ -683,6 +683,11 @@ fn dump_rvalue<'tcx>(cx: &mut Cx<'tcx>, w: &mut W, body: &mir::Body<'tcx>, rv: &
                     let t = Ty::new_closure(tcx, *def, args);
                     let tid = cx.ty_id(t);
                     w.knum("ty", tid);
+                    // the body of a closure that is only ever called from code whose callees cannot be resolved
+                    // (specialised std internals) would otherwise be missing from the program
+                    let body_inst = Instance::new_raw(*def, args);
+                    let bid = cx.inst_id(body_inst);
+                    w.knum("body", bid);
                 }
                 AggregateKind::RawPtr(t, m) => {
                     w.kstr("agg", "rawptr");
